@@ -72,6 +72,13 @@ func genC20(h *H) {
 			}
 		}
 	}
+	// FromPublicKey on caller-owned keys with coordinates in and out of range
+	{
+		px, py := h.affinePoint()
+		for _, xv := range append([][]byte{be32(px)}, h.overP()[:4]...) {
+			lines = append(lines, "bip_frompub "+hx(xv)+" "+hx(be32(py))+" "+hx(h.randBytes(32)))
+		}
+	}
 	// prefixes of valid DER signatures with the length bytes fixed up (a parser that indexes before it checks)
 	for i := 0; i < 3; i++ {
 		r, sv := h.randScalarInt(), h.randScalarInt()
